@@ -99,7 +99,7 @@ def _request(ctx, case):
     tp, number = case["type"], case["number"]
     es = EPRSocket(case["remote"], epr_socket_id=case["socket"], remote_epr_socket_id=case["socket"])
     req = PlannedRequest("create", tp, number, remote=NODE_IDS[case["remote"]], socket=case["socket"])
-    link = LinkModel([req])
+    link = LinkModel([req], partners=False)
     pipe = Pipe(epr_sockets=[es], link=link, max_qubits=5)
     kw = {}
     if "time_unit" in case:
